@@ -25,7 +25,7 @@ theorem C11_chunk_roundtrip (ds : List Bytes) (hne : ∀ d ∈ ds, d ≠ []) :
 example : dechunk 100 (frameData [[1, 2], [3]] ++ lastChunk) = some [1, 2, 3] := by decide
 
 /-- a chunk whose `len()` agrees with its byte length (everything except buffers with wide items) -/
-def wellSized : Chunk → Prop
+def c11WellSized : Chunk → Prop
   | .buf _ k => k = 1
   | _ => True
 
@@ -36,14 +36,14 @@ Proved: for well-sized pieces, what the body loop writes in chunked mode is the 
 non-empty encoded pieces — which `C11_chunk_roundtrip` decodes to the payload — and in
 Content-Length mode it is the payload itself.
 -/
-theorem C11_payload_roundtrip_partial (cs : List Chunk) (hw : ∀ c ∈ cs, wellSized c) (chunked : Bool)
+theorem C11_payload_roundtrip_partial (cs : List Chunk) (hw : ∀ c ∈ cs, c11WellSized c) (chunked : Bool)
     (hok : (sendChunks chunked cs).err = none) :
     ∃ ds : List Bytes, (∀ d ∈ ds, d ≠ []) ∧ chunksPayload cs = some ds.flatten ∧
       (sendChunks chunked cs).written = if chunked then frameData ds else ds.flatten := by
   induction cs with
   | nil => exact ⟨[], by simp, by simp [chunksPayload], by cases chunked <;> simp [sendChunks, frameData]⟩
   | cons c t ih =>
-    have hwt : ∀ c ∈ t, wellSized c := fun x hx => hw x (by simp [hx])
+    have hwt : ∀ c ∈ t, c11WellSized c := fun x hx => hw x (by simp [hx])
     have hwc := hw c (by simp)
     simp only [sendChunks] at hok ⊢
     split at hok
@@ -56,7 +56,7 @@ theorem C11_payload_roundtrip_partial (cs : List Chunk) (hw : ∀ c ∈ cs, well
         | bytes b => simp [Chunk.len] at hlen; simp [chunkBytes, hlen]
         | str s => simp [Chunk.len] at hlen; simp [chunkBytes, hlen, utf8SP]
         | buf b k =>
-          simp only [wellSized] at hwc; subst hwc
+          simp only [c11WellSized] at hwc; subst hwc
           simp [Chunk.len] at hlen; simp [chunkBytes, hlen]
       simp [chunksPayload, hb, h2]
     · rename_i hlen
@@ -89,7 +89,7 @@ theorem C11_payload_roundtrip_partial (cs : List Chunk) (hw : ∀ c ∈ cs, well
                 repeat' split at this
                 all_goals simp at this
           | buf b k =>
-            simp only [wellSized] at hwc; subst hwc
+            simp only [c11WellSized] at hwc; subst hwc
             simp [Chunk.data] at hd; subst hd
             simp [Chunk.len] at hlen
             exact ⟨rfl, by simp [Chunk.sizeLine, Chunk.len], hlen⟩
@@ -203,9 +203,9 @@ theorem C11_bodyless_table (meth : Str) (bs : Nat) :
 
 /-! ## re-sending -/
 
-def payloadOf (a : Attempt) : Option (FrameKind × Bytes) := (strictParse a.wire).bind deframe
+def c11PayloadOf (a : Attempt) : Option (FrameKind × Bytes) := (strictParse a.wire).bind deframe
 
-def st0 (meth : Str) (body : Body) : HState := ⟨meth, [], body, .none, false⟩
+def c11St0 (meth : Str) (body : Body) : HState := ⟨meth, [], body, .none, false⟩
 
 /-
 Full statement (Appendix E):
@@ -215,39 +215,39 @@ It does NOT hold of the code as it stands; the four witnesses below are each a h
 succeeds (or ends in a bare ValueError) while a re-sent body is empty.
 -/
 theorem C11_resend_oneshot_witness :
-    let r := sendHistory .pool c11cfg (lit "/p") false [.retryStatus, .ok] (st0 (lit "POST") (.iter [.bytes [97, 98]] true))
-    r.result = .ok () ∧ r.attempts.map payloadOf = [some (.chunked, [97, 98]), some (.chunked, [])] := by
+    let r := sendHistory .pool c11cfg (lit "/p") false [.retryStatus, .ok] (c11St0 (lit "POST") (.iter [.bytes [97, 98]] true))
+    r.result = .ok () ∧ r.attempts.map c11PayloadOf = [some (.chunked, [97, 98]), some (.chunked, [])] := by
   decide +kernel
 
 theorem C11_resend_no_tell_witness :
     let r := sendHistory .pool c11cfg (lit "/p") false [.redirectKeep, .ok]
-      (st0 (lit "PUT") (.file ⟨[1, 2, 3], 0, .ok, .absent, false⟩))
-    r.result = .ok () ∧ r.attempts.map payloadOf = [some (.chunked, [1, 2, 3]), some (.chunked, [])] := by
+      (c11St0 (lit "PUT") (.file ⟨[1, 2, 3], 0, .ok, .absent, false⟩))
+    r.result = .ok () ∧ r.attempts.map c11PayloadOf = [some (.chunked, [1, 2, 3]), some (.chunked, [])] := by
   decide +kernel
 
 theorem C11_resend_manager_redirect_witness :
     let r := sendHistory .manager c11cfg (lit "/p") false [.redirectKeep, .ok]
-      (st0 (lit "PUT") (.file ⟨[1, 2, 3], 0, .ok, .ok, false⟩))
-    r.result = .ok () ∧ r.attempts.map payloadOf = [some (.chunked, [1, 2, 3]), some (.chunked, [])] := by
+      (c11St0 (lit "PUT") (.file ⟨[1, 2, 3], 0, .ok, .ok, false⟩))
+    r.result = .ok () ∧ r.attempts.map c11PayloadOf = [some (.chunked, [1, 2, 3]), some (.chunked, [])] := by
   decide +kernel
 
 /-- … while the same history at pool level re-sends the body identically -/
 example :
     let r := sendHistory .pool c11cfg (lit "/p") false [.redirectKeep, .readErr, .ok]
-      (st0 (lit "PUT") (.file ⟨[1, 2, 3], 1, .ok, .ok, false⟩))
-    r.result = .ok () ∧ r.attempts.map payloadOf = [some (.chunked, [2, 3]), some (.chunked, [2, 3]), some (.chunked, [2, 3])] := by
+      (c11St0 (lit "PUT") (.file ⟨[1, 2, 3], 1, .ok, .ok, false⟩))
+    r.result = .ok () ∧ r.attempts.map c11PayloadOf = [some (.chunked, [2, 3]), some (.chunked, [2, 3]), some (.chunked, [2, 3])] := by
   decide +kernel
 
 theorem C11_resend_pool_303_witness :
     let r := sendHistory .pool c11cfg (lit "/p") false [.redirect303, .ok]
-      (st0 (lit "POST") (.file ⟨[1, 2, 3], 0, .ok, .ok, false⟩))
+      (c11St0 (lit "POST") (.file ⟨[1, 2, 3], 0, .ok, .ok, false⟩))
     r.result = .error .valueError ∧ r.attempts.length = 1 := by
   decide +kernel
 
 /-- a file whose `tell()` fails is refused on the first re-send -/
 example :
     (sendHistory .pool c11cfg (lit "/p") false [.retryStatus, .ok]
-      (st0 (lit "PUT") (.file ⟨[1, 2, 3], 0, .ok, .raises, false⟩))).result = .error .unrewindableBody := by
+      (c11St0 (lit "PUT") (.file ⟨[1, 2, 3], 0, .ok, .raises, false⟩))).result = .error .unrewindableBody := by
   decide +kernel
 
 end U3.Props
